@@ -209,8 +209,10 @@ def run_kani_units(units, tier, jobs, keep=False):
                     if True:
                         try:
                             rec['concrete_playback'] = kani.concrete_playback(sc, u['package'], h['name'])
+                            rec['native_replay'] = kani.native_playback(sc, u['package'], h['name'], rec['concrete_playback'])
                         except Exception as e:  # replay material is best effort
-                            rec['concrete_playback'] = None
+                            rec.setdefault('concrete_playback', None)
+                            rec['native_replay'] = {'ran': False, 'reason': str(e)[:200]}
                 obls.append(rec)
             metas.append({'package': u['package'], 'cmd': meta['cmd'], 'wall_s': meta['wall_s'], 'overlay': sc.applied, 'reused_from_cache': meta.get('reused_from_cache', []), 'tree_hash': meta.get('tree_hash', '')})
     finally:
@@ -343,7 +345,7 @@ def write_replay(pid, o, vmetas):
     path = os.path.join(REPLAYS, '%s-%s.json' % (pid, safe))
     rec = {'property': pid, 'failed_obligation': o['name'], 'engine': o['engine'], 'detail': o['detail'],
            'verifier_output': o.get('raw', ''), 'concrete_playback_test': o.get('concrete_playback'),
-           'witness': o.get('witness'),
+           'witness': o.get('witness'), 'native_replay_of_counterexample': o.get('native_replay'),
            'package': o.get('package'), 'harness': o.get('harness')}
     if o['engine'].startswith('verus'):
         for m in vmetas:
